@@ -21,6 +21,19 @@ CHECKS = {
         'stated small scope.',
         'Lean 4 proof (unbounded strings) + exhaustive small-scope/random differential correspondence with the compiled model',
         'DESIGN.md §6 C04'),
+    'C17': (
+        'Lean 4 theorems: for EVERY assignment history (any order, overwrites, out-of-shape attempts) the flat-array builder '
+        '(__setitem__ with its scan over the whole column deque) is the CSR form of strictly column-sorted rows that read '
+        'densely as the last-write-wins matrix (refinement via the commuting lemma setItem/ofRows); for every well-formed CSR '
+        'triple cell / row / col_indices_of_val equal the dense matrix (ascending duplicate-free column list); every '
+        'out-of-shape row/column (negative included) raises. Tie: all histories of length <= 3 (values {1,-1,2}) and length 4 '
+        '(values {1,-1}) on small shapes, random histories up to 6x7 / 40 assignments, random CSR triples with int/float/bool '
+        'dtypes; every read compared with the compiled model.',
+        'numpy slicing / fancy assignment ("last write wins") / boolean masks are modelled, not verified; error kinds are free '
+        '(any exception counts as "raises"); stored explicit zeros are outside the well-formedness predicate.',
+        'Lean 4 proof (refinement of the builder to the dense matrix, unbounded histories) + exhaustive small-scope/random '
+        'differential correspondence with the compiled model',
+        'DESIGN.md §6 C17'),
 }
 
 NOT_YET = {}
